@@ -15,7 +15,7 @@
  *   cmd IGN | o =c SD LG NP | ... | a V | q =name inst idx | ...
  *       -> mk: rc.. | rc | params: (k: "p"..).. | tail: n <vector> | argv: n <vector> | q: ninsts param ; ..
  * Every case runs in a forked child (one child handles consecutive cases
- * until one of them dies, parser cases get a fresh child each); a case that
+ * until one of them dies); a case that
  * kills the child prints "<crash>" (the signal number goes to stderr). */
 #include "parsec/utils/cmd_line.c"
 #include "hcommon.h"
@@ -254,13 +254,11 @@ int main(int argc, char **argv) {
             int nul = open("/dev/null", O_WRONLY);
             if (nul >= 0) dup2(nul, 2);           /* the parser reports errors on stderr */
             for (size_t i = k; i < n; i++) {
-                int is_cmd = !strncmp(cases[i], "cmd ", 4);
                 alarm(10);
                 do_case(cases[i]);
                 ob_put("\n", 1);
                 fputs(ob, stdout); fflush(stdout);
                 if (write(pfd[1], "x", 1) != 1) _exit(3);
-                if (is_cmd) _exit(0);   /* parser cases: a fresh process each (heap state matters when it crashes) */
             }
             _exit(0);
         }
